@@ -22,12 +22,20 @@ and dealer can be tripped by an *in-process* peer that sends a typed nil pointer
 -/
 import Nexus.L3.Expect
 import Nexus.Gen.Sites
+import Nexus.L3.WpL3Wait
 
 namespace Nexus.C04Sites
 open Nexus.Gen.Sites Nexus.L3 Nexus.L3.Expect
 
+/-- Close sites that exist once more in a second goroutine context (the patched generator emits a
+    site inside a closure held in a local variable once per context in which the variable is called;
+    Nexus/L3/WpL3Wait.lean). -/
+def accountedCloseSitesX : List (Nat × String) := [
+  (key! "router.router.AttachClient|Close|client@posted router.actionChan",
+    "the `client.Close()` of the sendAbort closure, executed inside the action AttachClient posts to the router goroutine (router closed, unknown realm, auto-creation failed): the action then sends the error on `sync` and AttachClient returns it without touching the peer again; no handler exists for the peer")]
+
 def accountedPanicKeys : List Nat := accountedPanicSites.map (·.1)
-def accountedCloseKeys : List Nat := accountedCloseSites.map (·.1)
+def accountedCloseKeys : List Nat := (accountedCloseSites ++ accountedCloseSitesX).map (·.1)
 
 /-- Every site of table (a) is of a kind that cannot panic (a map read) or is accounted for. -/
 theorem sites_accounted :
@@ -48,9 +56,10 @@ theorem no_bare_assertions : ∀ s ∈ panicSites, s.kind ≠ .assert := by
   intro s hs
   simpa using forall_of_all h s hs
 
-/-- Every `close(ch)` and every `X.Close()` is accounted for. -/
-theorem closes_accounted : ∀ c ∈ closeSites, c.key ∈ accountedCloseKeys := by
-  have h : closeSites.all (fun c => memN c.key accountedCloseKeys) = true := by decide +kernel
+/-- Every `close(ch)` and every `X.Close()` is accounted for (table (b) with the records of closures
+    called in a second goroutine context, `WpL3.allCloseSites`). -/
+theorem closes_accounted : ∀ c ∈ WpL3.allCloseSites, c.key ∈ accountedCloseKeys := by
+  have h : WpL3.allCloseSites.all (fun c => memN c.key accountedCloseKeys) = true := by decide +kernel
   intro c hc
   exact memN_iff.mp (forall_of_all h c hc)
 
